@@ -365,7 +365,13 @@ def _desc_instances(tier):
 
 TIER_PARAMS = {'quick': {'conc_cap': 300}, 'thorough': {'conc_cap': 600}}
 
+from harness import c17 as C17
+
 HARNESSES = [
+    H('h14_4_note_type_names_of_copies', C17.h_decode_elf, lambda tier: [c for c in C17._elf_instances(tier) if c.get('copied') and c['e_type'] == 'ET_CORE'],
+      expect=('ok', 'no-such-adapter'),
+      desc='note type names (core files: NT_PRSTATUS, NT_PRPSINFO, NT_FILE ...) of a struct factory that went through the copy / pickle protocol, as objects handed to a '
+           'worker process do (harness shared with C17)'),
     H('h14_1_step', h_step, _step_instances, expect=('ok',),
       desc='one note at an arbitrary offset: n_namesz / n_descsz symbolic within a padding class, type, name and descriptor bytes symbolic; '
            'followed by the extent end, a header-only note, or fewer than 12 trailing bytes. Oracle: gABI note format with 4-byte padding',
